@@ -32,6 +32,8 @@ type lockReport struct {
 	Writes       int
 	Findings     []lockFinding
 	GuardedUsed  map[string]bool
+	// lock level held at each call that passes the receiver on to another function of the package
+	SelfCalls map[*ssa.Call]lockLevel
 }
 
 // mutexFieldIndex returns the index of the mutex field of a struct type, or -1.
@@ -52,7 +54,13 @@ func mutexField(st *types.Struct) (idx int, rw bool) {
 // pointer to a struct with mutex field mu; immutable lists field names that are
 // only assigned in constructors.
 func analyseLocks(fn *ssa.Function, mu int, immutable map[string]bool) *lockReport {
-	rep := &lockReport{GuardedUsed: map[string]bool{}}
+	return analyseLocksFrom(fn, mu, immutable, lkNone)
+}
+
+// analyseLocksFrom is analyseLocks for a helper that is entered with the
+// receiver's lock already held at level entry by every caller.
+func analyseLocksFrom(fn *ssa.Function, mu int, immutable map[string]bool, entry lockLevel) *lockReport {
+	rep := &lockReport{GuardedUsed: map[string]bool{}, SelfCalls: map[*ssa.Call]lockLevel{}}
 	if len(fn.Params) == 0 || len(fn.Blocks) == 0 {
 		return rep
 	}
@@ -188,7 +196,7 @@ func analyseLocks(fn *ssa.Function, mu int, immutable map[string]bool) *lockRepo
 		for _, b := range fn.Blocks {
 			var l lockLevel = lkTop
 			if b == fn.Blocks[0] {
-				l = lkNone
+				l = entry
 			} else {
 				for _, p := range b.Preds {
 					if out[p] < l {
@@ -225,6 +233,9 @@ func analyseLocks(fn *ssa.Function, mu int, immutable map[string]bool) *lockRepo
 			}
 			need := lkNone
 			field := ""
+			if c, ok := i.(*ssa.Call); ok && c.Call.StaticCallee() != nil && len(c.Call.Args) > 0 && c.Call.Args[0] == ssa.Value(recv) {
+				rep.SelfCalls[c] = l
+			}
 			switch x := i.(type) {
 			case *ssa.Store:
 				if n, ok := guardedFieldAddr(x.Addr); ok {
